@@ -41,7 +41,7 @@ def run(ctx):
     ctx.rule('C09.i-one-shot-runs-the-streaming-sequence', 'the one-shot functions return what the wrapper codec returns for the same shards: their result comes from that codec\'s encode / decode on every path (clause shared with C10.a)')
     ctx.rule('C09.j-no-history-lengths', 'a codec reached through reset (rate switch or not) reads no length of a grow-only container: it behaves like the dedicated codec created fresh (clause shared with C05.h)')
     from . import c10 as c10_, c05 as c05__
-    ctx.guard('C09.analysable', ctx.shared, {'C10.a-must-pass': 'C09.i-one-shot-runs-the-streaming-sequence', 'C10.a-result-source': 'C09.i-one-shot-runs-the-streaming-sequence'}, c10_.both, ctx, ctx.facts(cfgs[0]), cfgs[0])
+    ctx.guard('C09.analysable', ctx.shared, {'C10.a-must-pass': 'C09.i-one-shot-runs-the-streaming-sequence', 'C10.a-result-source': 'C09.i-one-shot-runs-the-streaming-sequence', 'C10.l-inputs-drained': 'C09.i-one-shot-runs-the-streaming-sequence'}, c10_.both, ctx, ctx.facts(cfgs[0]), cfgs[0])
     ctx.guard('C09.analysable', ctx.shared, {'C05.h-grow-only-lengths': 'C09.j-no-history-lengths'}, c05__.grow_only_lengths, ctx, ctx.facts(cfgs[0]), cfgs[0])
     ctx.rule('C09.h-store-geometry-rewritten', 'the shard store a dedicated codec inherits at a rate switch (or keeps over a reset) is completely re-described by its resize: no stride, byte or tail length of the previous configuration survives (clause shared with C04.d)')
     from . import c04 as c04_
@@ -51,6 +51,7 @@ def run(ctx):
     ctx.guard('C09.analysable', ctx.shared, {'C03.e-kernel-siblings': 'C09.f-any-engine'}, c03.kernel_siblings, ctx, {c: ctx.facts(c) for c in ('x86_64', 'aarch64')})
     for c in ('x86_64', 'aarch64'):
         ctx.guard('C09.analysable', ctx.shared, {'C03.a-schedule-siblings': 'C09.f-any-engine'}, c03.schedules, ctx, ctx.facts(c), c)
+        ctx.guard('C09.analysable', ctx.shared, {'C03.i-byte-order-fixed': 'C09.f-any-engine'}, c03.byte_order, ctx, ctx.facts(c), c)
     for cfg in cfgs:
         facts = ctx.facts(cfg)
         ctx.guard('C09.analysable', check, ctx, facts, cfg)
